@@ -34,5 +34,13 @@ func init() {
 			fmt.Fprintf(out, "  %s(%d, [%s]) -- %s\n", sep, oid, strings.Join(bs, ","), strings.ReplaceAll(n, "\n", " "))
 		}
 		out.WriteString("  ]\n")
+		// whether fixedLengths (unexported) has the entry name → 64: with the short-input guard of
+		// decodeScalar a 63-byte name then decodes to nil instead of its text
+		short := make([]byte, 63)
+		for i := range short {
+			short[i] = 'x'
+		}
+		fmt.Fprintf(out, "/-- fixedLengths has an entry for name (19 ↦ 64): probed as DecodeType(63 bytes, 19) == nil -/\n")
+		fmt.Fprintf(out, "def nameFixed64 : Bool := %v\n", pgdump.DecodeType(short, pgdump.OidName) == nil)
 	})
 }
